@@ -93,6 +93,9 @@ def run_solvers(text, timeout_s, solvers, grace=(3.0, 4.0)):
 def parse_model(out):
     """parse `(get-value ...)` output: ((name value) ...)"""
     model = {}
+    for m in re.finditer(r"\(\(([A-Za-z_][A-Za-z0-9_.!$]*) (\d+)\) (\d+)\)", out):
+        model.setdefault(m.group(1), {})[int(m.group(2))] = int(m.group(3))
+    out = re.sub(r"\(\(([A-Za-z_][A-Za-z0-9_.!$]*) (\d+)\) (\d+)\)", "", out)
     for m in re.finditer(r"\(([A-Za-z_][A-Za-z0-9_.!$]*) (\(- (\d+)\)|-?\d+|true|false)\)", out):
         name, val = m.group(1), m.group(2)
         if val == "true":
@@ -120,6 +123,10 @@ def check(name, decls, ufs, asserts, timeout_s=60, want_model_of=None, solvers=(
     """Returns QueryResult. Verdict `unsat`/`sat` needs at least one solver with that answer and no solver with
     the opposite answer or an `(error`; everything else is inconclusive."""
     gv = tuple(want_model_of) if want_model_of is not None else tuple(n for n in sorted(decls))
+    # byte buffers (uninterpreted Int -> Int): ask for their first bytes so that counterexamples can be replayed
+    for fn_, (rs, args) in sorted(ufs.items()):
+        if rs == "Int" and tuple(args) == ("Int",):
+            gv = gv + tuple(f"({fn_} {i})" for i in range(48))
     text = script(decls, ufs, asserts, gv)
     res, wall = run_solvers(text, timeout_s, solvers)
     per = {}
